@@ -143,6 +143,7 @@ def run(ctx):
     # 'in every row the A_V, scale, chi^2 and predicted fluxes belong to the same model': the chi^2 stored is the chi^2 of the row's own A_V and scale
     from . import c01
     c01.check_fit_2d(ctx)
+    c01.check_log_fluxes(ctx)          # 'predicted log10 fluxes = model log10 fluxes + ...': the model log fluxes are the grid's fluxes in mJy, whatever unit the grid is held in
 
 
 FI = 'sedfitter/fit_info.py'
